@@ -11,7 +11,8 @@ if [ -n "${VERIF_REPLAY:-}" ]; then
   exec "$BUILD/c26_kgo.test" -test.run '^TestVerifC26$' -test.timeout 0
 fi
 go build -o "$BUILD/c26" ./checks/c26
-export C26_SUMMARY="$BUILD/c26_summary.json"
-rm -f "$C26_SUMMARY"
+# per-run file: concurrent runs of this check must not clobber each other
+export C26_SUMMARY="$BUILD/c26_summary.$$.json"
+trap 'rm -f "$C26_SUMMARY"' EXIT
 "$BUILD/c26_kgo.test" -test.run '^TestVerifC26$' -test.timeout 0 || { echo "INFRA-ERROR: kgo harness failed" >&2; exit 2; }
-exec "$BUILD/c26"
+"$BUILD/c26"
